@@ -7,7 +7,7 @@ LEVEL = "exploration"
 RULE = ("enumerated: ALL 128 compositions of 8 bits x all 256 byte values (exhaustive), compositions of 16 bits (all 32768 in the "
         "thorough tier on the generic path, 1600 seeded-sampled in quick) x 48 boundary/random patterns, sampled compositions of "
         "24..72 bits; each run alone, embedded between Int/Data neighbours, as two runs separated by a byte field, under class "
-        "endianness little, generated and generic code; pack values per field from {0,1,2^w-1,2^w,2^w+1,-1,-2^w, random big}; "
+        "endianness little, with non-zero declared defaults (keyword and positional), generated and generic code; pack values per field from {0,1,2^w-1,2^w,2^w+1,-1,-2^w, random big}; "
         "histories unpack -> assign one field -> pack; every composition whose total is not a multiple of 8 (sampled) must be "
         "rejected at class definition. Oracle: independent slice arithmetic on the big-endian integer; untouched fields and "
         "neighbouring byte fields must read back exactly. Non-trivial = >=2 fields in the run and a slice crossing a byte boundary, "
@@ -36,7 +36,7 @@ def shards(tier):
     return out
 
 
-EMBED = ["alone", "between", "two-runs", "little-class", "generic"]
+EMBED = ["alone", "between", "two-runs", "little-class", "generic", "with-defaults"]
 
 
 def source(items):
@@ -54,7 +54,11 @@ def source(items):
         if embed in ("between", "two-runs", "little-class"):
             out.append("    p = Int(1)\n")
         for j, w in enumerate(comp):
-            out.append("    b%d = Bits(%d)\n" % (j, w))
+            if embed == "with-defaults":
+                # all-ones defaults, given by keyword and positionally in turn: a default never changes what 0 or a slice means
+                out.append(("    b%d = Bits(%d, default=%d)\n" if j % 2 else "    b%d = Bits(%d, %d)\n") % (j, w, (1 << w) - 1))
+            else:
+                out.append("    b%d = Bits(%d)\n" % (j, w))
         if embed == "two-runs":
             out.append("    m = Data(1)\n")
             for j, w in enumerate(comp2):
